@@ -63,7 +63,37 @@ def probs_scenario(seed, i):
                     "n_jobs": 1}, "ops": ops}
 
 
+def tree_added_arm_scenario(seed, i):
+    """TreeBandit whose trees really consume their random_state (a random feature per split, or tied split candidates):
+    arms of the constructor and an arm added after the fit, both trained, then queried - every tree must be seeded by the
+    bandit's seed, whenever it was created"""
+    import random
+    rng = random.Random("%s/C04tree/%s" % (seed, i))
+    arms = [1, 2, 3]
+    params = rng.choice([{"max_features": 1}, {"splitter": "random"}, {"max_features": 1, "splitter": "random"}, None])
+    lp = G.gen_lp(rng, rng.choice(["ucb", "greedy"]))
+    if "eps" in lp:
+        lp["eps"] = 0.0
+    d_feat = 3
+
+    def row():
+        if params is None:
+            v = float(rng.randint(0, 3))
+            return [v] * d_feat                      # identical columns: every split candidate ties
+        return [float(rng.randint(0, 5)) for _ in range(d_feat)]
+    n = 18
+    fit = {"op": "fit", "d": [arms[j % 3] for j in range(n)], "r": [rng.choice([0, 1, 2, 5]) for _ in range(n)], "c": [row() for _ in range(n)]}
+    m = 10
+    more = {"op": "pfit", "d": [4] * m, "r": [rng.choice([0, 1, 2, 5]) for _ in range(m)], "c": [row() for _ in range(m)]}
+    qs = [[float(rng.randint(0, 5)) for _ in range(d_feat)] for _ in range(8)]
+    ops = [fit, {"op": "pexp", "c": qs}, {"op": "add", "arm": 4, "binz": None}, more, {"op": "pexp", "c": qs}, {"op": "pred", "c": qs}]
+    return {"cfg": {"lp": lp, "np": {"k": "tree", "params": params}, "arms": arms, "seed": rng.randint(0, 10 ** 6), "binz": None,
+                    "n_jobs": 1}, "ops": ops}
+
+
 def gen(seed, i):
+    if i % 6 == 3:
+        return tree_added_arm_scenario(seed, i)
     if i % 6 == 5:
         return warm_tie_scenario(seed, i)
     if i % 6 == 4:
